@@ -14,6 +14,9 @@ CLAIMED = {
  "C02": ("property-based testing of compute_swap against an exact rational (BigUint) curve oracle with cost-targeted amount generators",
          "16 M (quick) generated steps over the full u64/u128 domains, amounts aimed at the exact cost of reaching the target ±2; oracle = exact curve amounts, rounding direction, one-unit tightness, budget consumption. Only Ok results constrained, as the property states.",
          "Trusts x86-64 vs SBF agreement on safe integer code; direction flag as passed by the callers.", "DESIGN.md §3 C02"),
+ "C03": (HIST + "then one generated swap (single v1/v2 or two-hop) re-executed on clones with thresholds realised-1 / realised / realised+1 / 0 / u64::MAX; oracle from balance deltas and pool price",
+         "Accept <=> threshold admits the realised amount, decided on every generated case at the exact boundary; amount, direction, bound and limit clauses from balance deltas on states reached by generated histories, SPL Token and Token-2022 pools, single and two-hop.",
+         NSVM, "DESIGN.md §3 C03"),
  "C05": (HIST + "harness ledger of requested liquidity deltas vs independently decoded pool / tick-array bytes after every instruction",
          "After every successful instruction the pool's liquidity, every one of the 88 slots of every tick array (both encodings, decoded by the harness) and every position are compared with sums over a harness-side ledger.",
          NSVM, "DESIGN.md §3 C05"),
@@ -23,6 +26,9 @@ CLAIMED = {
  "C07": (HIST + "exact pro-rata fee ledger (2^-192 fixed-point enclosure) with a derived two-sided rounding bound at every crediting",
          "Two-sided bound: credited <= exact share and shortfall <= derived rounding slack, for every position at every crediting point, with accumulators started anywhere in u128.",
          NSVM + " H2 trace for per-step LP fee (formula decided by C06).", "DESIGN.md §3 C07"),
+ "C17": ("differential/metamorphic property-based testing: two-hop on clone A vs the two single swaps on clone B over two generated pool histories; byte equality of the complete account store; failure equivalences",
+         "Every well-formed generated two-hop that succeeds is compared byte for byte (all accounts) with its two single swaps; mismatching intermediates, failing legs, same-pool and no-shared-mint routes and thresholds missed by one must be rejected.",
+         NSVM, "DESIGN.md §3 C17"),
  "C09": ("exhaustive enumeration of all 887,273 ticks + proptest-generated sqrt-prices against an exact-integer oracle",
          "Forward domain decided exhaustively (every tick: monotone, endpoints, exact 2^-32 ratio inequality, inverse at p(t), p(t)±1); inverse domain by generated prices with the bracket oracle p(t)<=x<p(t+1). Search, not proof, for the 2^96-sized price domain.",
          "Trusts that x86-64 and SBF code generation agree on safe integer code.", "DESIGN.md §3 C09"),
